@@ -19,7 +19,7 @@ GEN = ("random well-formed histories from the seeded generator (tools/gen_engine
        "incl. equal values, expert nodes with scripted drivers; 8-60 actions each. ")
 
 PROPS = {
-    "C01": spec(["IncrVerif.Props.C01", "IncrVerif.Props.C01Global", "IncrVerif.Props.C01History"], [("static", 0.35), ("bind", 0.45), ("general", 0.2)], ["api", "read"],
+    "C01": spec(["IncrVerif.Props.C01", "IncrVerif.Props.C01Global", "IncrVerif.Props.C01History", "IncrVerif.Props.C01MapRef"], [("static", 0.35), ("bind", 0.45), ("general", 0.2)], ["api", "read"],
                 GEN + "C01 histories use only equality-respecting cutoffs and pure map_with_old machines (the property's proviso); "
                 "non-trivial = distinct history with at least two successful observer reads and one node function invocation",
                 c01_safe=True),
@@ -27,7 +27,7 @@ PROPS = {
                 GEN + "both build profiles (in debug builds a glitch usually trips a debug assertion first; release builds show the "
                 "stale arguments); non-trivial = distinct history in which node functions ran",
                 builds=("debug", "release"), nq=200),
-    "C06": spec(["IncrVerif.Props.C06", "IncrVerif.Props.C01Global", "IncrVerif.Props.C01History"], [("static", 0.25), ("general", 0.35), ("bind", 0.25), ("varw", 0.15)], ["api", "ev", "read"],
+    "C06": spec(["IncrVerif.Props.C06", "IncrVerif.Props.C01Global", "IncrVerif.Props.C01History", "IncrVerif.Props.C01MapRef"], [("static", 0.25), ("general", 0.35), ("bind", 0.25), ("varw", 0.15)], ["api", "ev", "read"],
                 GEN + "all cutoff kinds on all node kinds incl. vars, equal-value writes, unobserve/re-observe; "
                 "non-trivial = distinct history in which node functions ran"),
     "C14": spec(["IncrVerif.Props.C14"], [("expert", 1.0)], ["api", "ev", "read", "snap"],
